@@ -11,6 +11,14 @@ use std::fs::File;
 use std::io::Read;
 use std::path::Path;
 
+/// Standard base64, with or without trailing padding (the binary ninja script uses python's
+/// `base64.b64encode`, which pads).
+const BASE64: base64::engine::GeneralPurpose = base64::engine::GeneralPurpose::new(
+    &base64::alphabet::STANDARD,
+    base64::engine::GeneralPurposeConfig::new()
+        .with_decode_padding_mode(base64::engine::DecodePaddingMode::Indifferent),
+);
+
 /// Experimental loader which takes a program specification in Json form.
 ///
 /// See the binary ninja script for an example use.
@@ -101,9 +109,7 @@ impl Json {
                 };
 
                 let bytes = match segment["bytes"] {
-                    Value::String(ref bytes) => {
-                        base64::engine::general_purpose::STANDARD_NO_PAD.decode(bytes)?
-                    }
+                    Value::String(ref bytes) => BASE64.decode(bytes)?,
                     _ => {
                         return Err(Error::FalconInternal(
                             "bytes missing for segment".to_string(),
